@@ -204,3 +204,16 @@ package scheduler
 //@   calls append#1: requires qd[uuid]
 //@   calls append#1: requires qv[uuid].Container.State == arvados.ContainerStateLocked
 //@   calls append#1: requires !has(rm, uuid)
+
+// run: nothing is decided before the queue has been fetched successfully once
+// - stale-lock repair and scheduling start from a loaded queue, not from an
+// empty cache that a failed first fetch left behind.
+//@ iface ContainerQueue.Update
+//@   modifies nothing
+//@ func Scheduler.run property C14 safety -bounds,-nil
+//@   ghost uerr error = nil
+//@   ghost fetched bool = false
+//@   calls ContainerQueue.Update#*: set uerr = $r
+//@   calls ContainerQueue.Update#*: set fetched = true
+//@   loop 1: invariant fetched && uerr == err
+//@   calls Scheduler.fixStaleLocks#1: requires fetched && uerr == nil
